@@ -42,6 +42,12 @@ def main():
     res = json.load(open(res_path)) if os.path.exists(res_path) else {}
     with concurrent.futures.ThreadPoolExecutor(max_workers=j) as ex:
         for name, r in ex.map(lambda a: one(*a), jobs):
+            old = res.get(name, {})
+            if not r["detected"]:
+                # keep the hand-written account of which other check decides this change
+                for k in ("detected_by_other_check", "note"):
+                    if k in old:
+                        r[k] = old[k]
             res[name] = r
             print("%-12s %-4s %-8s %6.1fs %s %s" % (name, r["property"], "DETECTED" if r["detected"] else "MISSED", r["wall_s"], r["kinds"], r["first"][:140]), flush=True)
             json.dump(res, open(res_path, "w"), indent=1, sort_keys=True)
